@@ -1,10 +1,10 @@
 \* spec-level theorems only (no history in the state, so equal memories are merged):
-\* windows and bookkeeping over all histories of length <= 6 over NIS 0..4, dimension 1..3
+\* windows and bookkeeping over all histories of length <= 6 over NIS 0..3, dimension 1..3
 \* for the standard and sliding detectors; the harness rewrites Kinds/MaxLen for the
 \* fading-memory detector (whose accumulator does not merge).
 SPECIFICATION Spec
-CONSTANTS Kinds = {"standard", "sliding"} Windows = {1, 2, 3, 4} NAlpha = 3 Bank = FALSE
-          NisVals = {0, 1, 2, 3, 4} NisDen = 1 Dims = {1, 2, 3}
+CONSTANTS Kinds = {"standard", "sliding"} Windows = {1, 2, 3, 4} NAlpha = 3 Bank = TRUE
+          NisVals = {0, 1, 2, 3} NisDen = 1 Dims = {1, 2, 3}
           MaxLen = 6 FadeLen = 6 Trim = FALSE KeepHist = FALSE
 CONSTANT Deltas <- DeltasQuick
 INVARIANT TypeOK
